@@ -1,9 +1,9 @@
-"""C19 -- a Provenance behaves as a mutable list of formulas (edit histories, observed after every step)."""
+"""C19 -- a Provenance behaves as a mutable list of formulas (edit histories, observed after every step; incl. assignment to slices / index lists / masks)."""
 import coqfmt as cf
 from props.c05 import rand_formula, build_expr
 
 RULE = ("cases = random edit histories (length <= 12) over item assignment, insert (any integer index incl. negative "
-        "and out of range), append, del, pop(), pop(i), extend, +=, slice deletion, reverse and aliasing probes (edit a slice / keep a slice across an edit), with formulas of mixed "
+        "and out of range), assignment to a slice / index list / boolean mask (as many expressions as positions), append, del, pop(), pop(i), extend, +=, slice deletion, reverse and aliasing probes (edit a slice / keep a slice across an edit), with formulas of mixed "
         "widths 1-3 x 1-3 over <=4 units, applied to a real Provenance and to a Python list of the same expressions; "
         "after the construction and after EVERY edit: len, every row read back (literals and truth value), query under "
         "3 assignments (as index arrays and as total / partial mappings to candidate values; 30% of the cases list the candidates in reverse so that the falsy candidate is not the default), stored widths; non-trivial = at least 2 edits and (2 different kinds of edit or a change of the stored widths); "
@@ -14,8 +14,9 @@ JOBS = 8
 COQ_IMPORTS = "From DS Require Import Spec.Dnf Model.Provenance Model.ProvOps."
 TRUSTED = ["collections.abc.MutableSequence mix-in definitions (append/extend/pop/reverse/__iadd__) as modelled",
            "numpy np.insert / np.delete / np.pad as modelled", "CPython slice.indices()"]
-ASSUMPTIONS = ["edits are legal for a Python list (indices of item assignment / deletion in range); slice ASSIGNMENT "
-               "is not part of the MutableSequence contract of this container and is not generated"]
+ASSUMPTIONS = ["edits are legal for a Python list (indices of item assignment / deletion in range); assignment to a slice, "
+               "index list or boolean mask is generated with exactly as many expressions as positions selected (where a list "
+               "and the array-backed container agree; a length-changing slice assignment is not supported by the container)"]
 
 
 def gen(rng, tier):
@@ -32,7 +33,7 @@ def gen(rng, tier):
         for _ in range(rng.randint(1, 12)):
             kinds = ["insert", "insert", "append", "extend", "iadd"]
             if ln > 0:
-                kinds += ["set", "set", "del", "pop", "popat", "delslice", "reverse", "probe"]
+                kinds += ["set", "set", "del", "pop", "popat", "delslice", "reverse", "probe", "setmany"]
             kd = rng.choice(kinds)
             if kd == "set":
                 ops.append(["set", rng.randrange(-ln, ln), f0()])
@@ -58,6 +59,22 @@ def gen(rng, tier):
             elif kd == "probe":
                 # q = p[slice]; q[0] = f  -- must not touch p (a slice of a list is a new list)
                 ops.append(["probe", [rng.choice([None, 0, 1]), rng.choice([None, ln, -1]), rng.choice([None, 1, 2])], f0()])
+            elif kd == "setmany":
+                # p[slice] = es / p[[i, j]] = es / p[mask] = es with exactly as many expressions as positions (where a list and
+                # the container agree): one assignment of several rows of mixed widths
+                how = rng.choice(["slice", "list", "mask"])
+                if how == "slice":
+                    sl = [rng.choice([None, 0, 1, -2]), rng.choice([None, 2, -1, ln]), rng.choice([None, 1, 2])]
+                    pos = list(range(*slice(*sl).indices(ln)))
+                    sel = ["slice", sl]
+                elif how == "list":
+                    pos = sorted(rng.sample(range(ln), rng.randint(1, min(3, ln))))
+                    sel = ["list", [i - ln if rng.random() < 0.3 else i for i in pos]]
+                else:
+                    pos = [i for i in range(ln) if rng.random() < 0.5]
+                    sel = ["mask", [i in pos for i in range(ln)]]
+                if pos:
+                    ops.append(["setmany", sel, pos, [f0() for _ in pos]])
             elif kd == "delslice":
                 s = [rng.choice([None, 0, 1, -1, -2]), rng.choice([None, 1, 2, -1, ln]), rng.choice([None, 1, 2, -1])]
                 ops.append(["delslice", s])
@@ -158,6 +175,17 @@ def run_impl(c):
             a = p.pop(op[1]); b = ref.pop(op[1])
             if any(bool(a.eval([cand[v] for v in x])) != bool(b.eval([cand[v] for v in x])) for x in c["xs"]):
                 state["ok"] = False
+        elif kd == "setmany":
+            es = [mk(f) for f in op[3]]
+            how, arg = op[1]
+            if how == "slice":
+                p[slice(*arg)] = es
+            elif how == "list":
+                p[list(arg)] = es
+            else:
+                p[np.array(arg, dtype=bool)] = es
+            for i, e in zip(op[2], es):
+                ref[i] = e
         elif kd == "delslice":
             del p[slice(*op[1])]; del ref[slice(*op[1])]
         elif kd == "reverse":
@@ -198,6 +226,8 @@ def emit(c, o):
         elif kd == "delslice":
             pos = list(range(*slice(*op[1]).indices(ln)))
             rops.append("(RDelMany %s)" % cf.nats(pos)); ln -= len(pos)
+        elif kd == "setmany":
+            rops.append("(RSetMany %s %s)" % (cf.nats(op[2]), cf.dnfs(op[3])))
         elif kd == "probe":
             rops.append("(RDelMany [])")      # editing a slice is a no-op on the container itself
         else:
@@ -247,6 +277,13 @@ def _legal(c):
         if kd in ("set", "del", "popat"):
             if not (-ln <= op[1] < ln):
                 return False
+        if kd == "setmany":
+            how, arg = op[1]
+            pos = (list(range(*slice(*arg).indices(ln))) if how == "slice" else
+                   [i % ln if -ln <= i < ln else None for i in arg] if how == "list" else
+                   ([i for i, b in enumerate(arg) if b] if len(arg) == ln else None))
+            if pos is None or None in pos or sorted(pos) != list(op[2]):
+                return False
         if kd == "pop" and ln == 0:
             return False
         if kd in ("insert", "append"):
@@ -273,7 +310,7 @@ ANCHORS = [
 
 MANIFEST = {
     "text": "Proof (refinement, induction over the edit history): C19_refines_list / C19_step -- for every start list, "
-            "every history of legal edits (assignment, insert, append, del, pop, extend/+=, slice deletion, reverse "
+            "every history of legal edits (assignment to one position or to several at once -- slice, index list, boolean mask --, insert, append, del, pop, extend/+=, slice deletion, reverse "
             "incl. the pairwise-swap loop C19_reverse_loop) over formulas of any widths and every assignment: length, "
             "every read-back and every query equal those of the plain list. Tied to the code by applying random "
             "histories to a real Provenance, to a Python list and to the model, comparing after EVERY step inside Coq.",
